@@ -190,7 +190,9 @@ class Transformer(NamedTuple):
     def _exc_as_str(exc) -> str:
         if isinstance(exc, str):
             return exc
-        return exc.__name__
+        # a declared name can be resolved into a builtin that is not a class
+        # and has no name, like `NotImplemented` or `Ellipsis`
+        return getattr(exc, '__name__', None) or repr(exc)
 
     def _mutations_markers(self, func: Func) -> Iterator[Mutation]:
         """Add @deal.has if needed.
